@@ -141,13 +141,84 @@ func c29ShapeByteEqual(base, ours, theirs *mSide, sc *mSchemaChange) bool {
 	return false
 }
 
+// Finding C29-reorder-byte-equal-row-unchanged: a pure column reorder (ALTER TABLE ... MODIFY COLUMN
+// c ... FIRST/AFTER) changes the layout of the stored value tuple, but SchemaMerge sets neither
+// Left/RightSchemaChange nor LeftAndRightSchemasDiffer for it (every column "did not change"), so
+// the three-way differ diffs the reordered side against the base byte-wise. A row the reordering
+// side changed such that its new tuple has the same bytes as the base tuple under the old layout
+// ((c1,c2)=(1,NULL) and (c2,c1)=(1,NULL) are both [1]) is taken for unchanged: that side's update is
+// lost without a conflict.
+const c29FindReorderByteEqual = "C29-reorder-byte-equal-row-unchanged"
+
+// c29ShapeReorderByteEqual: the schema change is a reorder and some base row that the reordering
+// side changed (by name) may encode to the base row's bytes.
+func c29ShapeReorderByteEqual(base, ours, theirs *mSide, sc *mSchemaChange, oursChanged bool) bool {
+	if sc == nil || sc.Kind != "reorder" {
+		return false
+	}
+	a := theirs
+	if oursChanged {
+		a = ours
+	}
+	enc := func(s *mSide, r vsql.Row) []string {
+		ords := s.valueOrdinals()
+		vals := make([]string, len(ords))
+		for n, o := range ords {
+			vals[o] = r[s.colIdx(n)]
+		}
+		for len(vals) > 0 && vals[len(vals)-1] == mNull {
+			vals = vals[:len(vals)-1]
+		}
+		return vals
+	}
+	for _, k := range base.T.Keys() {
+		ra, ok := a.T.Rows[k]
+		if !ok {
+			continue
+		}
+		rb := base.T.Rows[k]
+		same := true
+		for i, c := range base.Cols {
+			if ra[a.colIdx(c.Name)] != rb[i] {
+				same = false
+			}
+		}
+		if same {
+			continue
+		}
+		ea, eb := enc(a, ra), enc(base, rb)
+		if len(ea) != len(eb) {
+			continue
+		}
+		maybe := true
+		for i := range ea {
+			if (ea[i] == mNull) != (eb[i] == mNull) {
+				maybe = false
+			}
+			// equal renderings of different kinds may or may not share bytes: stay conservative
+			if ea[i] != eb[i] {
+				ka := a.Cols[a.colIdx(a.physValueName(i))].Kind
+				kb := base.Cols[base.colIdx(base.physValueName(i))].Kind
+				if ka == kb || !((ka == mInt || ka == mDate) && (kb == mInt || kb == mDate)) {
+					maybe = false
+				}
+			}
+		}
+		if maybe {
+			return true
+		}
+	}
+	return false
+}
+
 type c29Pinned struct {
 	name    string
 	finding string
 	setup   []string // on base
 	ours    []string
 	theirs  []string
-	want    []string // rows of SELECT * FROM t ORDER BY pk after merging theirs into ours
+	query   string   // default SELECT * FROM t ORDER BY pk
+	want    []string // rows of the query after merging theirs into ours
 	wantConflicts int
 }
 
@@ -170,6 +241,17 @@ var c29PinnedCases = []c29Pinned{
 		theirs:        []string{"UPDATE t SET c1 = 5, c2 = NULL WHERE pk = 1"},
 		want:          []string{"1,5"},
 		wantConflicts: 1,
+	},
+	{
+		// theirs moves c2 in front of c1 and sets (c1,c2) from (1,NULL) to (NULL,1): stored tuple [1]
+		// before and after
+		name:    "reorder_keeps_bytes_of_changed_row",
+		finding: c29FindReorderByteEqual,
+		setup:   []string{"CREATE TABLE t (pk INT PRIMARY KEY, c1 INT, c2 INT)", "INSERT INTO t VALUES (1,1,NULL)"},
+		ours:    []string{"INSERT INTO t VALUES (2,2,2)"},
+		theirs:  []string{"ALTER TABLE t MODIFY COLUMN c2 INT AFTER pk", "UPDATE t SET c1 = NULL, c2 = 1 WHERE pk = 1"},
+		query:   "SELECT pk, c1, c2 FROM t ORDER BY pk",
+		want:    []string{"1,NULL,1", "2,2,2"},
 	},
 	{
 		name:          "byte_equal_insert_after_drop_column",
@@ -205,7 +287,11 @@ func c29RunPinned(t *testing.T, env *mEnv) {
 			if err := se.Exec("CALL dolt_merge('" + pfx + "b2')"); err != nil {
 				fail = "dolt_merge failed: " + strings.SplitN(err.Error(), "\n", 2)[0]
 			} else {
-				got := se.MustQuery(t, "SELECT * FROM t ORDER BY pk")
+				q := pc.query
+				if q == "" {
+					q = "SELECT * FROM t ORDER BY pk"
+				}
+				got := se.MustQuery(t, q)
 				var rows []string
 				for _, r := range got.Data {
 					rows = append(rows, strings.ReplaceAll(strings.Join(r, ","), vsql.Null, "NULL"))
